@@ -177,6 +177,13 @@ def corpus():
                     "m3": _fn("memento", [["m1", "bare"], ["m2", "bare"]])}, order=["m1", "m2", "m3"])
     k1 = json.loads(json.dumps(k0)); k1["defs"]["m1"].update(const=2, explicit="12"); k1["defs"]["m2"].update(const=2, explicit="3")
     out.append([k0, k1])
+    # F23: explicit version digests did not name their function: m3 "1" -> m4 "2" -> m3 replaced by m3 "2" -> m1 "1" -> m1
+    # (m3 rewritten and bumped, m4 dropped, a new function m1 whose name sorts first): the same digests in the same order
+    e0 = dict(defs={"m2": _fn("memento", [["m3", "bare"]]), "m3": _fn("memento", [["m4", "bare"]], explicit="1"),
+                    "m4": _fn("memento", [["m3", "bare"]], explicit="2", const=2)}, order=["m3", "m4", "m2"])
+    e1 = dict(defs={"m1": _fn("memento", [["m1", "bare"]], explicit="1", const=5), "m2": _fn("memento", [["m3", "bare"]]),
+                    "m3": _fn("memento", [["m1", "bare"]], explicit="2", const=7)}, order=["m1", "m3", "m2"])
+    out.append([e0, e1])
     # F21: an alias re-bound between two functions that are both dependencies already
     a0 = dict(defs={"m1": _fn("memento", []), "m2": _fn("memento", [], const=2),
                     "m3": _fn("memento", [["m1", "bare"], ["m1", "alias"], ["m2", "bare"]])}, order=["m1", "m2", "m3"])
